@@ -3,11 +3,14 @@ package props
 import (
 	"fmt"
 	"go/ast"
+	"go/constant"
 	"go/token"
 	"go/types"
 	"strings"
 
 	"gripverif/core"
+
+	"golang.org/x/tools/go/cfg"
 )
 
 func init() {
@@ -18,6 +21,110 @@ func init() {
 // statement of the body tests IsSignal() on the loop variable and, when it
 // holds, forwards the variable (or a lookup referring to it) and does nothing else.
 func signalTransparent(info *types.Info, loop *ast.RangeStmt) (ok bool, why string) {
+	ok, why = signalTransparentShape(info, loop)
+	if ok {
+		return ok, why
+	}
+	// other shapes: read the body with IsSignal() taken to be true
+	if ok2, why2 := signalTransparentFlow(info, loop); ok2 {
+		return true, ""
+	} else if why2 != "" {
+		why = why + "; read with IsSignal() true: " + why2
+	}
+	return false, why
+}
+
+// signalTransparentFlow specialises the loop body on `<t>.IsSignal() == true`
+// and requires of the statements that remain reachable: the only methods called
+// on the traveler are IsSignal/IsNull/GetSignal, at least one send forwards the
+// traveler itself or a lookup whose Ref is the traveler, and no other value
+// derived from the traveler is sent.
+func signalTransparentFlow(info *types.Info, loop *ast.RangeStmt) (bool, string) {
+	if loop.Key == nil {
+		return false, ""
+	}
+	tv := defOrUse(info, loop.Key)
+	isT := func(e ast.Expr) bool {
+		id, ok := ast.Unparen(e).(*ast.Ident)
+		return ok && info.Uses[id] == tv
+	}
+	fl := &core.Flow{Info: info, Body: loop.Body}
+	fl.Const = func(e ast.Expr, st *core.State) (constant.Value, bool) {
+		if c, ok := ast.Unparen(e).(*ast.CallExpr); ok {
+			if sel, ok := c.Fun.(*ast.SelectorExpr); ok && sel.Sel.Name == "IsSignal" && isT(sel.X) {
+				return constant.MakeBool(true), true
+			}
+		}
+		return nil, false
+	}
+	fl.Run()
+	// locals that carry the traveler as their Ref: x := T{Ref: t}
+	carriers := map[types.Object]bool{}
+	refLit := func(e ast.Expr) bool {
+		cl, ok := ast.Unparen(e).(*ast.CompositeLit)
+		if !ok {
+			return false
+		}
+		for _, el := range cl.Elts {
+			if kv, ok := el.(*ast.KeyValueExpr); ok {
+				if id, ok := kv.Key.(*ast.Ident); ok && id.Name == "Ref" && isT(kv.Value) {
+					return true
+				}
+			}
+		}
+		return false
+	}
+	good, bad := 0, ""
+	fl.Walk(func(n ast.Node, st *core.State, b *cfg.Block) {
+		if as, ok := n.(*ast.AssignStmt); ok && len(as.Lhs) == len(as.Rhs) {
+			for i, r := range as.Rhs {
+				if refLit(r) {
+					if o := defOrUse(info, as.Lhs[i]); o != nil {
+						carriers[o] = true
+					}
+				}
+			}
+		}
+		ast.Inspect(n, func(x ast.Node) bool {
+			switch y := x.(type) {
+			case *ast.FuncLit:
+				return false
+			case *ast.CallExpr:
+				if sel, ok := y.Fun.(*ast.SelectorExpr); ok && isT(sel.X) {
+					switch sel.Sel.Name {
+					case "IsSignal", "IsNull", "GetSignal":
+					default:
+						if bad == "" {
+							bad = "calls " + sel.Sel.Name + "() on a signal traveler"
+						}
+					}
+				}
+			case *ast.SendStmt:
+				v := ast.Unparen(y.Value)
+				switch {
+				case isT(v) || refLit(v):
+					good++
+				case func() bool { o := defOrUse(info, v); return o != nil && carriers[o] }():
+					good++
+				case refersTo2(info, v, tv):
+					if bad == "" {
+						bad = "sends a value derived from the signal traveler instead of the signal itself"
+					}
+				}
+			}
+			return true
+		})
+	})
+	if bad != "" {
+		return false, bad
+	}
+	if good == 0 {
+		return false, "no statement forwards the signal"
+	}
+	return true, ""
+}
+
+func signalTransparentShape(info *types.Info, loop *ast.RangeStmt) (ok bool, why string) {
 	if loop.Key == nil || len(loop.Body.List) == 0 {
 		return false, "loop has no traveler variable"
 	}
